@@ -131,8 +131,8 @@ def judge(op, impl, model, spec):
                 pending = None
             else:
                 good = False
-        elif a == "d" or a[0] == "c":
-            # d: the pending future is dropped.  c<i> / cs: write(..) / sync() is called and the future dropped without a single poll;
+        elif a == "d" or a[0] == "c" or a == "g":
+            # d: the pending future is dropped.  g: the accessors writer_mut() / writer() are called.  c<i> / cs: write(..) / sync() is called and the future dropped without a single poll;
             # futures are lazy, so nothing has been encoded, armed or sent (a future pending before is gone: the call needs &mut self)
             good &= t == "-"
             pending = None
@@ -334,7 +334,7 @@ def unpolled_ops(rng, tier):
         out = []
         for a in acts:
             if a[0] in "ws" and rng.random() < 0.4:
-                out += [rng.choice([f"c{rng.randrange(n)}", "cs"]) for _ in range(rng.choice([1, 1, 2]))]
+                out += [rng.choice([f"c{rng.randrange(n)}", "cs", "g"]) for _ in range(rng.choice([1, 1, 2]))]
             out.append(a)
         out.append(f"c{rng.randrange(n)}")
         if "#complete=1" in op:
